@@ -483,13 +483,14 @@ HAND = {   # hand-wired implementations of vk/props/c09.py: (constructor, varian
     'hand4_0': ('handmade_impl4', 0, 1, [lambda a: a, lambda a: 1 - a, lambda a: 1 - a]),
     'hand4_1': ('handmade_impl4', 1, 1, [lambda a: a, lambda a: 1, lambda a: 1]),
     'hand4_2': ('handmade_impl4', 2, 1, [lambda a: a, lambda a: 1 - a, lambda a: 1]),
+    'hand5': ('handmade_impl5', None, 1, [lambda a, s: s, lambda a, s: 1 - s], 1),      # one state element: present state s is an extra argument
 }
 
 
 def enum_hand(tier):
     """implementations wired by hand through the API (fork chains before a port, a port that is read inside and drives another port directly,
     several ports on one fork, cell-kind ports read inside, edited in place) x every subset of connected instance outputs x {as is, copy, pickle}"""
-    for name, (_, _, _, fns) in sorted(HAND.items()):
+    for name, (_, _, _, fns, *_rest) in sorted(HAND.items()):
         for mask in range(1, 1 << len(fns)):
             for how in ('asis', 'copy', 'pickle'):
                 yield dict(impl=name, mask=mask, how=how)
@@ -499,7 +500,8 @@ def prop_hand(case):
     from kyupy.circuit import Circuit, Node, Line
     from kyupy.logic_sim import LogicSim
     import vk.props.c09 as c09
-    ctor, variant, n_in, fns = HAND[case['impl']]
+    ctor, variant, n_in, fns, *rest = HAND[case['impl']]
+    n_st = rest[0] if rest else 0
     impl = getattr(c09, ctor)() if variant is None else getattr(c09, ctor)(variant)
     before = canon_circuit(impl)
     c = Circuit('parent')
@@ -523,17 +525,21 @@ def prop_hand(case):
         raise Violation(f'substitute changed the port list: {[n.name for n in c.io_nodes]} vs {ports}')
     if case['how'] == 'copy': c = c.copy()
     elif case['how'] == 'pickle': c = pickle.loads(pickle.dumps(c))
-    npat = 1 << n_in
+    npat = 1 << (n_in + n_st)
     sim = LogicSim(c, npat, m=2)
+    if sim.s_len != n_in + len(outs) + n_st:
+        raise Violation(f'{case["impl"]} substituted with outputs {outs} connected ({case["how"]}): {sim.s_len} ports and state elements, expected {n_in + len(outs) + n_st}')
     mv = np.zeros((sim.s_len, npat), dtype=np.uint8)
     for k in range(n_in):
         mv[k] = [3 * ((p >> k) & 1) for p in range(npat)]
+    for k in range(n_st):
+        mv[sim.s_len - n_st + k] = [3 * ((p >> (n_in + k)) & 1) for p in range(npat)]
     sim.s[0] = pack_bp(mv)
     sim.s_to_c(); sim.c_prop(); sim.c_to_s()
     res = unpack_bp(sim.s[1], npat)
     for j, k in enumerate(outs):
         for p in range(npat):
-            args = [(p >> i) & 1 for i in range(n_in)]
+            args = [(p >> i) & 1 for i in range(n_in + n_st)]
             want = 3 * fns[k](*args)
             if int(res[n_in + j, p]) != want:
                 raise Violation(f'{case["impl"]} substituted with outputs {outs} connected ({case["how"]}): port o{k} = {int(res[n_in + j, p])} for inputs {args}, '
